@@ -54,7 +54,7 @@ STDOUT == -1
 STDERR == -2
 
 AllActs == {"Set", "With", "New", "NewDetached", "PkgSetLevel", "SetDefault", "LogF", "LogA", "LogM", "SetAttrsR",
-            "Flags", "PkgLevel", "DbgMode"}
+            "Flags", "PkgLevel", "DbgMode", "PkgSkip"}
 
 \* the global flag set (flags.go); StdFlags = LstdFlags.  The harness starts every behaviour from
 \* LstdFlags | LnoInterrupt so that Panic/Fatal probes return.
@@ -88,7 +88,8 @@ RemoveOne(seq, x) ==
     ELSE seq
 RemoveAllOf(seq, x) == SelectSeq(seq, LAMBDA y : y # x)
 
-(* Setter kinds: the effect of Set<K>(a, b) on one logger's configuration.  The result is a SET
+(* Setter kinds: the effect of Set<K>(a, b) on one logger's configuration (writer id 0 is a nil
+   writer: every writer operation ignores it).  The result is a SET
    of configurations: a singleton except for removal from a list holding the writer twice,
    where the documentation does not say whether one or all occurrences go.                    *)
 SetterKinds == {"JSONMode", "ColorMode", "UTCMode", "TimeFormat", "Level", "Attrs", "Attrs1", "SetKV", "Attrs0", "Skip", "CtxKeys", "CtxReset",
@@ -114,13 +115,13 @@ ApplyK(c, k, a, b) ==
       [] k = "Skip" -> {[c EXCEPT !.skip = a]}
       [] k = "CtxKeys" -> {[c EXCEPT !.ctx = Append(c.ctx, a)]}
       [] k = "CtxReset" -> {[c EXCEPT !.ctx = <<>>]}          \* ResetContextKeys
-      [] k = "Writer" -> {[c EXCEPT !.wn = <<a>>]}
-      [] k = "AddWriter" -> {[c EXCEPT !.wn = Append(c.wn, a)]}
+      [] k = "Writer" -> IF a = 0 THEN {c} ELSE {[c EXCEPT !.wn = <<a>>]}
+      [] k = "AddWriter" -> IF a = 0 THEN {c} ELSE {[c EXCEPT !.wn = Append(c.wn, a)]}
       [] k = "RemoveWriter" -> {[c EXCEPT !.wn = RemoveOne(c.wn, a)], [c EXCEPT !.wn = RemoveAllOf(c.wn, a)]}
-      [] k = "ErrorWriter" -> {[c EXCEPT !.we = <<a>>]}
-      [] k = "AddErrorWriter" -> {[c EXCEPT !.we = Append(c.we, a)]}
+      [] k = "ErrorWriter" -> IF a = 0 THEN {c} ELSE {[c EXCEPT !.we = <<a>>]}
+      [] k = "AddErrorWriter" -> IF a = 0 THEN {c} ELSE {[c EXCEPT !.we = Append(c.we, a)]}
       [] k = "RemoveErrorWriter" -> {[c EXCEPT !.we = RemoveOne(c.we, a)], [c EXCEPT !.we = RemoveAllOf(c.we, a)]}
-      [] k = "AddLevelWriter" -> {[c EXCEPT !.wl[b] = Append(c.wl[b], a)]}
+      [] k = "AddLevelWriter" -> IF a = 0 THEN {c} ELSE {[c EXCEPT !.wl[b] = Append(c.wl[b], a)]}
       [] k = "RemoveLevelWriter" -> {[c EXCEPT !.wl[b] = RemoveOne(c.wl[b], a)], [c EXCEPT !.wl[b] = RemoveAllOf(c.wl[b], a)]}
       [] k = "ResetLevelWriter" -> {[c EXCEPT !.wl[b] = <<>>]}
       [] k = "ResetLevelWriters" -> {[c EXCEPT !.wl = NoWL]}
@@ -177,6 +178,7 @@ Guard(s, e) ==
       [] e.op = "PkgSetLevel" -> TRUE
       [] e.op = "SetDefault" -> e.l \in Live(s)
       [] e.op = "LogM" -> e.l \in Live(s)          \* a record with context CtxVals[e.a] and call attributes CallArgs[e.b]
+      [] e.op = "PkgSkip" -> e.k \in {"SetSkip", "WithSkip"}   \* slog.SetSkip(a) / slog.WithSkip(a): the default logger's twins
       [] e.op = "DbgMode" -> TRUE                  \* the process-wide debug mode set from outside the library (hedzr/is)
       [] e.op = "SetAttrsR" -> TRUE                \* the inherit-attributes flag (LattrsR) on (e.a = 1) / off
       \* global flags: e.k in SetFlags AddFlags RemoveFlags ResetFlags SaveFlagsAndMod(add e.a, remove e.b)
@@ -194,6 +196,7 @@ Guard(s, e) ==
       [] e.op = "LogF" -> e.l \in Live(s)          \* a record of severity e.a under fault assignment FailSets[e.b]
       [] OTHER -> FALSE
 
+RECURSIVE Step(_, _)
 Step(s, e) ==
     CASE e.op = "Set" ->
            {[s EXCEPT !.cfg[e.l] = c2, !.dbg = DbgAfter(s.dbg, e.k, e.a)] : c2 \in ApplyK(s.cfg[e.l], e.k, e.a, e.b)}
@@ -220,6 +223,9 @@ Step(s, e) ==
       [] e.op = "SetDefault" -> {[s EXCEPT !.deflog = e.l]}
       [] e.op = "LogA" -> {s}
       [] e.op = "LogM" -> {s}
+      [] e.op = "PkgSkip" ->
+           IF e.k = "SetSkip" THEN {[s EXCEPT !.cfg[s.deflog].skip = e.a]}
+           ELSE Step(s, [op |-> "With", l |-> s.deflog, k |-> "Skip", a |-> e.a, b |-> 0])
       [] e.op = "DbgMode" -> {[s EXCEPT !.dbg = (e.a = 1)]}
       [] e.op = "SetAttrsR" -> {[s EXCEPT !.attrsR = (e.a = 1),
                                            !.flags = IF e.a = 1 THEN s.flags \cup {"attrsR"} ELSE s.flags \ {"attrsR"}]}
@@ -250,6 +256,9 @@ Ret(s, e, s2) ==
            IF e.k # "" /\ KidNamed(s, e.l, e.k) # {}
            THEN CHOOSE m \in KidNamed(s, e.l, e.k) : TRUE ELSE s2.n
       [] e.op = "NewDetached" -> s2.n
+      [] e.op = "PkgSkip" ->
+           IF e.k = "SetSkip" THEN 0
+           ELSE IF KidNamed(s, s.deflog, SkipName(e.a)) # {} THEN CHOOSE m \in KidNamed(s, s.deflog, SkipName(e.a)) : TRUE ELSE s2.n
       [] OTHER -> 0
 
 -----------------------------------------------------------------------------
@@ -380,6 +389,10 @@ LogF(l, r, fi) == "LogF" \in Acts /\ Do("LogF", l, "", r, fi)
 LogM(l, ci, ai) == "LogM" \in Acts /\ Do("LogM", l, "", ci, ai)
 SetAttrsR(b) == "SetAttrsR" \in Acts /\ b \in {0, 1} /\ Do("SetAttrsR", 0, "", b, 0)
 DbgMode(b) == "DbgMode" \in Acts /\ b \in {0, 1} /\ Do("DbgMode", 0, "", b, 0)
+PkgSkip(k, a) ==
+    /\ "PkgSkip" \in Acts /\ "Skip" \in DOMAIN SetterArgs /\ <<a, 0>> \in SetterArgs["Skip"]
+    /\ (k = "WithSkip" => st.n < MaxLoggers)
+    /\ Do("PkgSkip", 0, k, a, 0)
 FlagKinds == {"SetFlags", "AddFlags", "RemoveFlags", "ResetFlags", "SaveFlagsAndMod", "RestoreFlags"}
 Flags(k, a, b) ==
     /\ "Flags" \in Acts
@@ -413,6 +426,7 @@ Next ==
     \/ \E l \in 1..MaxLoggers, ci \in DOMAIN CtxVals, ai \in DOMAIN CallArgs : LogM(l, ci, ai)
     \/ \E b \in {0, 1} : SetAttrsR(b)
     \/ \E b \in {0, 1} : DbgMode(b)
+    \/ \E k \in {"SetSkip", "WithSkip"}, a \in ArgA : PkgSkip(k, a)
     \/ \E k \in FlagKinds, a \in 0..Len(FlagSets), b \in 0..Len(FlagSets) : Flags(k, a, b)
     \/ \E k \in PkgLevelKinds, a \in ArgA \cup 0..MaxSaved : PkgLevel(k, a)
     \/ \E l \in 1..MaxLoggers, ep \in EPs, r \in LogSevs, mc \in MsgClasses, args \in ArgLists : LogA(l, ep, r, mc, args)
